@@ -1,9 +1,10 @@
 """C14 — clock domains stay in ratio; the internal clock holds tempo under delay.
-Theorems: coq/Props/C14.v over the models coq/Clock/{Multiplier,ClockRun,MidiIn}.v.
+Theorems: coq/Props/C14.v over the models coq/Clock/{Multiplier,ClockRun,MidiIn,MidiInTimed}.v.
 Correspondence (every run): make_clock_multiplier on ALL ordered rate pairs up to 1920 with one dividing the other
 (+ sampled non-dividing pairs, None/0 rates), Timeline.tick() with 1-3 recording devices (and a MidiOutputDevice on a
 fake port), Clock.run against a scripted virtual clock (jitter, stalls, tempo changes from the callback and between
-wake-ups, exact-boundary dyadic scripts), MidiInputDevice._callback on message sequences, each compared inside Coq
+wake-ups, exact-boundary dyadic scripts), MidiInputDevice._callback on message sequences under a virtual wall clock
+(gaps from microseconds to hours, time standing still / going backwards), each compared inside Coq
 (vm_compute) with the model.  Oracle: closed forms in exact arithmetic (fractions.Fraction) from the property text."""
 from common import *
 import math
@@ -12,8 +13,8 @@ PROP = "C14"
 MAXRATE = 1920
 META = {
  "engine": "S-scheduler",
- "text": "Coq theorems (Props/C14.v, closed under the global context) prove, for ALL positive rates below 10^8 and all run lengths: after n timeline ticks a device has received exactly ceil(n*out/in) ticks (out | in: one tick on timeline tick 0 and then on every (in/out)-th, so every window of in/out ticks holds exactly one; in | out: exactly out/in per tick; any window of `in` timeline ticks = one beat holds exactly `out` device ticks, hence 24 MIDI clocks per beat), the code's round(pos, 8) > 1 test agrees with the exact comparison, a pair is refused on the first next() exactly when neither rate divides the other and never otherwise, a device without a rate gets one tick per tick; for the internal clock, for ANY non-decreasing sequence of clock readings (arbitrary lateness, stalls) the total number of ticks delivered after each wake-up is floor((t - t0)/delta) (none dropped or doubled), after a tempo change the ticks follow the new duration exactly from the next tick, and an external MIDI clock produces exactly one tick per clock message (start/stop/songpos 0 -> start/stop/reset, nothing else ticks). The models are tied to the repository on every run: make_clock_multiplier on every ordered dividing pair up to 1920 (exhaustive) and sampled non-dividing pairs, Timeline.tick with 1-3 devices incl. a MidiOutputDevice on a fake port, Clock.run on a scripted virtual clock, MidiInputDevice._callback; all compared inside Coq (vm_compute) and judged by an independent exact-arithmetic oracle that supplies the failing input.",
- "note": "Partial in the DESIGN sense: threads, time.sleep and the OS scheduler are outside the model (the theorem covers every sequence of readings, not the mechanism producing them); float rounding of `pos`/`clock0` accumulation is validated by the correspondence runs (readings kept >= 2e-6 s from deadlines except in the exactly-representable dyadic stratum), not proved; warpers, jitter>0 and the tempo estimate of MidiInputDevice are not modelled. Trusted: Coq kernel + VM; the Python harness; Python int //, % = Z.div/Z.modulo.",
+ "text": "Coq theorems (Props/C14.v, closed under the global context) prove, for ALL positive rates below 10^8 and all run lengths: after n timeline ticks a device has received exactly ceil(n*out/in) ticks (out | in: one tick on timeline tick 0 and then on every (in/out)-th, so every window of in/out ticks holds exactly one; in | out: exactly out/in per tick; any window of `in` timeline ticks = one beat holds exactly `out` device ticks, hence 24 MIDI clocks per beat), the code's round(pos, 8) > 1 test agrees with the exact comparison, a pair is refused on the first next() exactly when neither rate divides the other and never otherwise, a device without a rate gets one tick per tick; for the internal clock, for ANY non-decreasing sequence of clock readings (arbitrary lateness, stalls) the total number of ticks delivered after each wake-up is floor((t - t0)/delta) (none dropped or doubled), after a tempo change the ticks follow the new duration exactly from the next tick, and an external MIDI clock produces exactly one tick per clock message (start/stop/songpos 0 -> start/stop/reset, nothing else ticks) whatever the wall-clock readings the callback takes for its tempo estimate (any integers: equal, decreasing, microseconds or hours apart); on a steady clock the estimate is exactly 2.5/interval bpm. The models are tied to the repository on every run: make_clock_multiplier on every ordered dividing pair up to 1920 (exhaustive) and sampled non-dividing pairs, Timeline.tick with 1-3 devices incl. a MidiOutputDevice on a fake port, Clock.run on a scripted virtual clock, MidiInputDevice._callback with the time module it sees replaced by a scripted clock (13 time profiles); all compared inside Coq (vm_compute) and judged by an independent exact-arithmetic oracle that supplies the failing input.",
+ "note": "Partial in the DESIGN sense: threads, time.sleep and the OS scheduler are outside the model (the theorem covers every sequence of readings, not the mechanism producing them); float rounding of `pos`/`clock0` accumulation is validated by the correspondence runs (readings kept >= 2e-6 s from deadlines except in the exactly-representable dyadic stratum), not proved; warpers and jitter>0 are not modelled; the tempo estimate of MidiInputDevice is modelled exactly and compared with relative tolerance 1e-9 on strictly increasing readings only. Trusted: Coq kernel + VM; the Python harness; Python int //, % = Z.div/Z.modulo.",
 }
 HEADER = """From Isobar Require Import Base.Prelude Clock.Multiplier Clock.ClockRun Clock.MidiIn.
 """
